@@ -249,8 +249,46 @@ def run(ctx):
                 break
             if len(ctx.violations) >= 8:      # enough concrete failing inputs: stop searching
                 return
+    # 2b search mode only (a proof or tie is broken): a flood scenario -- one producer with a long script whose events trigger
+    # follow-up events from inside callbacks, main first: exposes capacity-dependent behaviour (e.g. a bounded queue)
+    if ctx.broken:
+        flood(ctx, m0)
     # 3 all schedules with few preemptions on small scenarios
     exhaustive(ctx, m0, tsk)
+
+
+def flood(ctx, m, n=1100):
+    counter = [0]
+
+    def ev(children=()):
+        counter[0] += 1
+        return Ev(counter[0], "EventX", children)
+    script = [ev((ev(),)) if i % 50 == 0 else ev() for i in range(n)]
+    scripts = {"main": script}
+    real = L.RealRun(m, scripts)
+    try:
+        # main runs until it blocks or finishes triggering, then worker and main alternate a little, then the fair tail
+        for _ in range(3 * n):
+            if "main" in real.enabled():
+                real.step("main")
+            else:
+                break
+        for i in range(40):
+            en = real.enabled()
+            if not en:
+                break
+            real.step(en[i % len(en)] if "worker" not in en or i % 3 else "worker")
+        L.fair_tail(real, 20 * n)
+        bad = L.oracle(real, scripts, m["threaded"], expect_termination=True)
+        ctx.case(("flood", n), nontrivial=True)
+        ctx.count("flood_scenario")
+        if bad:
+            ctx.violation(bad, {"scripts": L.scripts_json(scripts), "schedule": list(real.schedule), "table": m["table"], "threaded": m["threaded"],
+                                "finding_key": classify(bad), "detail": bad})
+    except Exception as e:  # noqa
+        ctx.count("flood_scenario_error:%s" % type(e).__name__)
+    finally:
+        real.close()
 
 
 def replay(ctx, data, m=None):
